@@ -198,6 +198,9 @@ FullSync<'a, ItemType, OgreAllocatorType, BUFFER_SIZE, MAX_STREAMS> {
                                channel_name = self.streams_manager.name(), used_streams_count = self.streams_manager.running_streams_count());
                     },
                 }
+            } else {
+                // this listener vanished after `running_streams_count` was read: release the reference that was pre-loaded for it
+                drop(unsafe { ogre_arc_item.raw_copy() });
             }
         }
         true
